@@ -53,6 +53,8 @@ def build(tier, seed):
     cases = [{'kind': 'jack', 'n': n} for n in range(5, nmax + 1)]
     for n in range(5, 13):
         cases.append({'kind': 'boot', 'n': n})
+    # call history: chains of very different lengths exported / imported one after the other in one process (every order of 4 lengths)
+    cases.append({'kind': 'length-sequence'})
     cases.append({'kind': 'boot-multisets'})
     cases.append({'kind': 'boot-seeding'})
     cases.append({'kind': 'refusals'})
@@ -69,7 +71,36 @@ def run_case(case):
     pe = engine.import_pyerrors()
     acc = Acc()
     k = case['kind']
-    if k == 'jack':
+    if k == 'length-sequence':
+        lens = [200, 60, 7, 23]
+        objs = {n: mk(pe, n, 'irregular' if n % 2 else 'strided', 'ar1', 'seq') for n in lens}
+        for order in itertools.permutations(lens):
+            bad = None
+            for n in order:
+                o, x, cfgs = objs[n]
+                try:
+                    j = o.export_jackknife()
+                    back = pe.import_jackknife(j, 'A|r1', idl=[o.idl['A|r1']])
+                    sc = np.max(np.abs(x))
+                    if back.value != o.value or list(back.idl['A|r1']) != cfgs or not np.all(np.abs(back.deltas['A|r1'] - o.deltas['A|r1']) <= 1e-11 * sc):
+                        bad = 'jackknife round trip of the chain of length %d' % n
+                    rn = np.array([[(3 * i + 7 * s_) % n for i in range(n)] for s_ in range(n)] + [[(i * i + s_) % n for i in range(n)] for s_ in range(n + 2)])
+                    b = o.export_bootstrap(len(rn), random_numbers=rn)
+                    expb = np.array([o.value] + [np.mean(x[row]) for row in rn])
+                    if not np.all(np.abs(b - expb) <= 1e-12 * sc):
+                        bad = bad or 'bootstrap export of the chain of length %d' % n
+                    b1, b2 = o.export_bootstrap(40), o.export_bootstrap(40)
+                    if not np.array_equal(b1, b2):
+                        bad = bad or 'default-seeded bootstrap export of the chain of length %d is not reproducible' % n
+                except Exception as e:
+                    bad = 'length %d raised %s: %s' % (n, type(e).__name__, e)
+                if bad:
+                    acc.fail('resampling:length-sequence', dict(case, order=list(order), n=n), 'chains of lengths %s handled in this order: %s' % (list(order), bad))
+                    break
+            else:
+                acc.ok(('lenseq', order), True, 'length-sequence')
+        acc.sample(dict(case, lengths=lens, orders='all 24'))
+    elif k == 'jack':
         n = case['n']
         for ik in IDL_KINDS:
             for d in DATA:
